@@ -95,9 +95,12 @@ def gen_history(schema, ty, rnd, n, emphasis=None):
     msgf = [f for f in fields if f["kind"] == "message" and f["card"] in ("implicit", "optional", "oneof")]
     ops = []
     kw = []
+    # a constructor may be given several members of one group: the dataclass __init__ assigns in declaration order, so the
+    # member declared last is the one set last (kw is kept in declaration order)
+    several = rnd.random() < (.35 if emphasis == "oneof" else .1)
     for f in fields:
-        if rnd.random() < (.25 if emphasis != "presence" else .4):
-            if f["card"] == "oneof" and any(x[0] in {g["name"] for g in mem if g["group"] == f["group"]} for x in kw):
+        if rnd.random() < (.25 if emphasis != "presence" else .4) or (several and f["card"] == "oneof" and rnd.random() < .5):
+            if f["card"] == "oneof" and not several and any(x[0] in {g["name"] for g in mem if g["group"] == f["group"]} for x in kw):
                 continue
             kw.append([f["name"], rand_value(schema, f, rnd, allow_unset=False)])
     ops.append({"op": "new", "kw": kw})
